@@ -416,7 +416,15 @@ func (g *gen) commandStep() (omap, umap) {
 		want["plugins"] = wl
 	}
 	// matrix
-	switch r.Intn(9) {
+	switch r.Intn(12) {
+	case 8:
+		// named dimensions only: no adjustments, no other keys
+		in = append(in, kv{"matrix", omap{{"setup", omap{{"os", []any{"linux", "mac"}}, {"arch", []any{"amd64"}}}}}})
+		want["matrix"] = umap{"setup": umap{"os": []any{"linux", "mac"}, "arch": []any{"amd64"}}}
+	case 9:
+		// one named dimension
+		in = append(in, kv{"matrix", omap{{"setup", omap{{"os", []any{"linux", 7}}}}}})
+		want["matrix"] = umap{"setup": umap{"os": []any{"linux", "7"}}}
 	case 6:
 		// a matrix without a setup is an empty matrix
 		in = append(in, kv{"matrix", omap{}})
